@@ -448,6 +448,13 @@ inline CircuitSpec genCircuit(Tape &t, const GenOpts &o) {
       if (c.h > 0 && c.h < minH) c.h = (int)minH;
   }
 
+  // domain guard (C07): every cell area stays below 2^31 also after the height adjustments above
+  for (auto &c : s.cells) {
+    if ((long long)c.w * c.h < (1LL << 31)) continue;
+    if (refIsTurn((CellOrientation)c.orient)) c.h = (int)(((1LL << 31) - 1) / std::max(1, c.w));
+    else c.w = (int)(((1LL << 31) - 1) / std::max(1, c.h));
+  }
+
   // 6. initial positions of the movable cells
   int pc = t.weighted({4, 2, 2, 2});
   static const char *pn[] = {"start:spread", "start:clustered", "start:far-outside", "start:on-obstructions"};
